@@ -351,8 +351,6 @@ func (graphScen) Exec(w *World, cc any, prop string) *Result {
 				res.violate("C03", "closure-runs-once", sig, "task %s ran only part of its commands: %v", n, v.markers[n])
 			case !ran && c.JSON && listed[n] == 0:
 				res.violate("C03", "closure-runs-once", sig, "task %s is requested or depended upon but was neither executed nor reported (report lists %v)", n, listed)
-			case !ran && !c.JSON && !strings.Contains(obs.Stdout, n):
-				res.violate("C03", "closure-runs-once", sig, "task %s is requested or depended upon but was neither executed nor mentioned", n)
 			case c.JSON && listed[n] > 1:
 				res.violate("C03", "closure-runs-once", sig, "task %s appears %d times in the report", n, listed[n])
 			}
